@@ -22,7 +22,7 @@ func ModeFor(prop string, run int) string {
 			return "twin:singles"
 		}
 	case "C14":
-		if run%2 == 1 {
+		if run%4 != 0 {
 			return "twin:unsafe"
 		}
 	case "C15":
@@ -102,7 +102,7 @@ func RunMode(prop, tier string, seed uint64, worker, run int, mode string) *RunR
 	}
 	if !s.fatal {
 		s.OpIdx = len(g.Ops)
-		s.finish()
+		s.Finish()
 	}
 	res.Ops = g.Ops
 	fill(res, s, prop)
